@@ -54,7 +54,7 @@ def events(tr):
 class C03(Prop):
     id = 'C03'
     num = 3
-    regions = {'quick': [('core', 80), ('block', 100), ('routers', 60), ('renege', 60), ('preempt', 50), ('prio_reroute', 40),
+    regions = {'quick': [('core', 80), ('block', 100), ('routers', 60), ('renege', 60), ('renege_jockey', 60), ('schedpre_block', 40), ('preempt', 50), ('prio_reroute', 40),
                          ('sched', 40), ('schedpre', 40), ('sched_reroute', 30), ('slotted', 30), ('dyn', 30), ('ps', 20), ('all', 60)]}
     rule = ('one case = one observed run; the event list has every customer creation, every entry into a node or the exit, every data '
             'record as it is written and the true final location of every customer; non-trivial = some customer has >= 3 visit-closing '
@@ -84,6 +84,10 @@ class C03(Prop):
 
     def stats(self, tr):
         return events(tr)[2]
+
+    def frame_index(self, tr, k):
+        meta = events(tr)[1]
+        return meta[k] if 0 <= k < len(meta) else len(tr.frames)
 
     def explain(self, tr, v):
         if v[0] != 'R':
